@@ -45,14 +45,24 @@ Demands(n) ==
 \* a child whose definite type is disjoint from what its slot demands
 SlotClash(n) == \E i \in 1..Len(Kids(n)) : IsExpr(Kids(n)[i]) /\ Static(Kids(n)[i]) \cap Demands(n)[i] = {}
 
-\* every occurrence of a reference with the type its context demands: set of <<Strip(ref), type>>
-RECURSIVE RefDemands(_, _)
-RefDemands(n, d) ==
-  (IF IsRef(n) THEN {<<Strip(n), d \cap Static(n)>>} ELSE {})
-  \cup UNION {RefDemands(Kids(n)[i], Demands(n)[i]) : i \in 1..Len(Kids(n))}
+\* every occurrence of a reference with the type its context demands: set of <<Strip(ref), binder, type>>
+\* (binder: the stripped quantifier binding the root variable, <<>> when free)
+RECURSIVE SBaseOf(_)
+SBaseOf(x) == IF x.cls = "HplFieldAccess" THEN SBaseOf(x.message) ELSE IF x.cls = "HplArrayAccess" THEN SBaseOf(x.array) ELSE x
+RECURSIVE RefDemandsS(_, _, _)
+RefDemandsS(n, d, scope) ==
+  (IF IsRef(n)
+   THEN LET b == SBaseOf(n) IN
+        {<<Strip(n), IF b.cls = "HplVarReference" /\ b.name \in DOMAIN scope THEN <<scope[b.name]>> ELSE <<>>, d \cap Static(n)>>}
+   ELSE {})
+  \cup (IF n.cls = "HplQuantifier"
+        THEN RefDemandsS(n.domain, T_COMPOUND, scope)
+             \cup RefDemandsS(n.condition, T_BOOL, [y \in (DOMAIN scope) \cup {n.variable} |-> IF y = n.variable THEN Strip(n) ELSE scope[y]])
+        ELSE UNION {RefDemandsS(Kids(n)[i], Demands(n)[i], scope) : i \in 1..Len(Kids(n))})
+RefDemands(n, d) == {<<r[1], r[3]>> : r \in RefDemandsS(n, d, [y \in {} |-> 0])}
 
 RefClash(n, d) ==
-  LET rd == RefDemands(n, d) IN \E a \in rd : \E b \in rd : a[1] = b[1] /\ a[2] \cap b[2] = {}
+  LET rd == RefDemandsS(n, d, [y \in {} |-> 0]) IN \E a \in rd : \E b \in rd : a[1] = b[1] /\ a[2] = b[2] /\ a[3] \cap b[3] = {}
 
 \* the bound variable of a quantifier over a LITERAL set or range, used where a type disjoint from the elements is demanded
 LiteralElemType(dom) ==
